@@ -216,6 +216,19 @@ impl Prop for C02 {
                 return out;
             }
         };
+        // the same tokenizer object used again: another text in between must not change the answer
+        {
+            let other: String = c.text.chars().rev().take(24).collect();
+            let _ = tok.tokenize(&other, true);
+            let _ = tok.tokenize("", true);
+            match tok.tokenize(&c.text, true) {
+                Ok(t) => ensure!(out, t.token_ids == ids, "the same tokenizer gives a different answer for the same text after tokenizing another text in between"),
+                Err(e) => {
+                    out.fail(format!("second tokenize of the same text failed: {e}"));
+                    return out;
+                }
+            }
+        }
         let pre: Vec<u32> = c.special.prefix.iter().map(special_id).collect();
         let suf: Vec<u32> = c.special.suffix.iter().map(special_id).collect();
         out.label_if(!pre.is_empty() || !suf.is_empty(), "prefix_suffix");
